@@ -267,6 +267,11 @@ def run(ctx, res):
             res.ob(good, "fci-kind", sup, f"{nm} supports exactly {kind} feedback (RFC 4585/5104)", detail=repr(r)[:200])
         for s, k, r in I.inline(fm, None, State(), [b]):
             res.ob(isinstance(r, IntV) and r.l == lin(fmt), "fci-kind", fm, f"{nm}::format() == {fmt}", detail=repr(r))
+    # a configuration is what the public setters were given (a rebuild that resets the padding makes an unrepresentable
+    # request look representable): the setter rules of C20 for every builder
+    from .c20 import setter_rules, builder_adts
+    _ns, _nc, _ = setter_rules(F, D, res, builder_adts(F, D))
+    res.floor("(setter, field) pairs checked", _ns, 80)
     n_def = default_configuration(F, D, builders, res)
     res.floor("public constructors whose fresh builder was checked against the limits", n_def, 14)
     n_pad = padding_attribute(F, D, builders, res)
